@@ -6,7 +6,7 @@ import vlib
 
 # ------------------------------------------------------------------ generator
 
-def gen_rules(rng, nmin=5, nmax=14, cyclic=False):
+def gen_rules(rng, nmin=5, nmax=14, cyclic=False, dup_single=True):
     """A layered rule set. Keys 0..ni-1 are observing input rules; later keys request earlier ones."""
     ni = rng.randint(2, 4)
     n = rng.randint(max(ni + 2, nmin), nmax)
@@ -39,6 +39,15 @@ def gen_rules(rng, nmin=5, nmax=14, cyclic=False):
         di = [x for x in inputs if x in rest]
         if di and rng.random() < 0.25:
             r["disc"] = rng.sample(di, 1)
+        # the same key in two roles with different flags (generated-header pattern: mustFollow(h) ... discoveredDependency(h);
+        # single-use and regular request of one key): the recorded list then holds the key twice
+        if fo and not r.get("disc") and rng.random() < 0.3:
+            cand = [x for x in fo if x < ni]
+            if cand:
+                r["disc"] = [rng.choice(cand)]
+        if si and dup_single and rng.random() < 0.3:
+            # only with a database: the in-memory dump has no flags, so the recorded order of two entries of one key would be ambiguous
+            r["req"] = r["req"] + [si[0]]
         if (si or fo) and rng.random() < 0.6:
             r["ord"] = rng.choice(["rsf", "rfs", "srf", "sfr", "frs", "fsr"])
         rules[i] = r
@@ -60,9 +69,9 @@ def rule_line(k, r):
 
 def gen_history(rng, usedb=None, nops=(3, 10), sched=None, allow_rule_edits=True):
     """Returns list of scenario lines. sched: None (sync), or a function rng -> sched string per build."""
-    ni, n, rules = gen_rules(rng)
     if usedb is None:
         usedb = rng.random() < 0.5
+    ni, n, rules = gen_rules(rng, dup_single=bool(usedb))
     L = ["db %d" % (1 if usedb else 0)]
     for k in sorted(rules):
         L.append(rule_line(k, rules[k]))
